@@ -43,7 +43,10 @@ var pgPrefix = ""
 // pgAny lets non-generic programs spell the empty interface as `any` (v2 runs of C20)
 var pgAny = false
 
-func pgPath(i int) string { return fmt.Sprintf("ex.test/%sp%d", pgPrefix, i) }
+// pgModule is the module (v2) / GOPATH root element (v1) the generated packages live in
+var pgModule = "ex.test"
+
+func pgPath(i int) string { return fmt.Sprintf("%s/%sp%d", pgModule, pgPrefix, i) }
 func pgName(i int) string { return fmt.Sprintf("p%d", i) }
 
 func (pg *progGen) ref(from int, n pgNamed) string {
@@ -61,7 +64,7 @@ func (pg *progGen) ref(from int, n pgNamed) string {
 func (pg *progGen) visible(from int, pred func(pgNamed) bool) []pgNamed {
 	var out []pgNamed
 	for _, n := range pg.named {
-		if (n.pkg == from || n.pkg < from) && n.class != "generic" && pred(n) {
+		if (n.pkg == from || n.pkg < from && n.name != "float") && n.class != "generic" && pred(n) {
 			out = append(out, n)
 		}
 	}
@@ -155,6 +158,11 @@ func (g *Gen) genProgram(v2 bool, npk int, depth int) ([]GenPkg, []string) {
 			kind := g.Pick([]string{"struct", "struct", "struct", "iface", "basic", "other"})
 			name := fmt.Sprintf("%s%d", map[string]string{"struct": "T", "iface": "I", "basic": "B", "other": "D"}[kind], k)
 			ds = append(ds, decl{pgNamed{pkg: p, name: name, class: kind}, kind})
+		}
+		if g.Chance(0.3) {
+			// "float" is a key of gengo's builtin table but no predeclared Go identifier: a package may declare it
+			ds = append(ds, decl{pgNamed{pkg: p, name: "float", class: "floatdecl"}, "floatdecl"})
+			pg.classes["decl-named-like-builtin"] = true
 		}
 		if v2 && g.Chance(0.7) {
 			// "ZG0" sorts after its users: an instantiation is then walked before the declaration
@@ -295,6 +303,14 @@ func (g *Gen) genProgram(v2 bool, npk int, depth int) ([]GenPkg, []string) {
 				}
 				setByVal(p, d.n.name, false)
 				pg.classes["defined-pointer-array-chan-func"] = true
+			case "floatdecl":
+				if g.Chance(0.5) {
+					fmt.Fprintf(&b, "type float float64\n\n")
+					setByVal(p, "float", true)
+				} else {
+					fmt.Fprintf(&b, "type float struct {\n\tMantissa *int\n\tExp int\n}\n\n")
+					setByVal(p, "float", false)
+				}
 			case "generic":
 				fmt.Fprintf(&b, "type %s[T any] struct {\n\tV T\n\tP *T\n\tS []T\n}\n\n", d.n.name)
 				if g.Chance(0.6) {
